@@ -163,6 +163,11 @@ func findGV(name string, level int) (gen.GV, bool) {
 			return g, true
 		}
 	}
+	for _, g := range sharedPointerValues() {
+		if g.Name == name {
+			return g, true
+		}
+	}
 	return gen.GV{}, false
 }
 
@@ -368,6 +373,7 @@ func init() {
 				}
 				for _, mc := range marshalCfgs() {
 					if mc.name == "recursion" { // cyclic values need recursion support
+						c05Case(c, g, level, mc)
 						c05ReuseCase(c, g, level, mc)
 					}
 				}
